@@ -556,6 +556,16 @@ where
         }
 
         if buflen >= 132 && &buf[128..132] == b"DICM" {
+            // `DICM` may also show up at this offset inside a value
+            // of a file which has no preamble:
+            // the magic code is always followed by the tag of
+            // File Meta Information Group Length (0002,0000)
+            const GROUP_LENGTH_TAG: [u8; 4] = [0x02, 0x00, 0x00, 0x00];
+            let starts_with_meta = &buf[0..4] == b"DICM" && buf[4..8] == GROUP_LENGTH_TAG;
+            let meta_after_preamble = buflen >= 136 && buf[132..136] == GROUP_LENGTH_TAG;
+            if starts_with_meta && !meta_after_preamble {
+                return Ok(ReadPreamble::Never);
+            }
             return Ok(ReadPreamble::Always);
         }
 
